@@ -238,3 +238,21 @@ Definition lmp_energy : Q := 1000 * si_cal / si_NA.      (* kcal/mol *)
 Definition lmp_mass   : Q := (1 # 1000) / si_NA.         (* g/mol *)
 Definition lmp_vel    : Q := 100000.                     (* Angstrom/fs *)
 Definition tol6 : Q := 1 # 1000000.
+
+(* factor that takes the square of a written velocity back to the unit of the draw
+   (mass unit * draw unit^2 = the engine's energy unit): scale^2 for LAMMPS, 1 otherwise *)
+Definition vunit2 (e : engine) : Q :=
+  match vscale e with Some s => s * s | None => 1 end.
+
+(* CP2K (Hartree atomic units) and ASE (eV, amu, Angstrom): mass unit in kg and the square of
+   the velocity unit in (m/s)^2, the latter *defined* by energy unit = mass unit * velocity unit^2 *)
+Definition cp2k_mass : Q := si_me.
+Definition cp2k_vel2 : Q := si_Eh / si_me.
+Definition ase_mass  : Q := si_mu.
+Definition ase_vel2  : Q := si_e / si_mu.
+
+(* LAMMPS: joule per (mass unit * draw-velocity unit^2), the draw being scale * (file velocity) *)
+Definition lmp_draw_energy : Q := lmp_mass * (lmp_vel * lmp_vel) / (scale_lammps * scale_lammps).
+
+(* sum of the squares of all drawn standard-normal values *)
+Definition sum_sq (z : list col) : Q := sumQ (map (fun zc => sumQ (map (fun x => x * x) zc)) z).
